@@ -477,3 +477,20 @@ func (h *VerifHarness) RunDeferred() {
 func (h *VerifHarness) String() string {
 	return fmt.Sprintf("harness(%s, %d jobs, iter %d)", h.psdir, len(h.Jobs), h.Iter)
 }
+
+// VdrDebug describes the storage bookkeeping of every stage fork.
+func (h *VerifHarness) VdrDebug() []string {
+	var out []string
+	for _, n := range h.Ps.allNodes() {
+		for _, f := range n.forks {
+			var args []string
+			for a, ns := range f.fileArgs {
+				args = append(args, fmt.Sprintf("%s:%d", a, len(ns)))
+			}
+			out = append(out, fmt.Sprintf("%s state=%s vdrkill=%v partial=%v postnodes=%d fileArgs=%v paramMap=%d",
+				f.fqname, f.getState(), f.metadata.exists(VdrKill), f.metadata.exists(PartialVdr),
+				len(f.filePostNodes), args, len(f.fileParamMap)))
+		}
+	}
+	return out
+}
